@@ -18,7 +18,9 @@ RULE = ("E1: all scenarios of the shared portfolio generator with <= K costed de
         "baseline (asset parameters, grids, windows, extras, names, order, split mode), free choices "
         "(price pair, base network, order-book position) fully expanded; distinct = canonical scenario "
         "hash; non-trivial = the problem assembled and has >= 2 assets contributing variables and >= 1 "
-        "nodal row")
+        "nodal row; family linked: a LinkedAsset over an inner portfolio (optionally led by a transport / multi-commodity / coarse asset), "
+        "link variable disp or bool_on, time_back 0-2, time_forward 0-1, time already running 0-1 steps, <= K+1 deviations, against the "
+        "documented rows re-derived through the mapping; every row tying one boolean to dispatch of one step must agree on the step")
 ASSUMPTIONS = ["stand-alone asset problems built from fresh objects are the reference for per-variable cost/bounds",
                "c, l, u are concatenated in portfolio order (portfolio.py:88-90), so variable offset+i IS the i-th variable of that asset",
                "float comparison after rounding to 1e-9"]
@@ -111,15 +113,120 @@ def gen_wrapped(ch):
     return S.finish(gj, assets, prices, mode=ch.pick("mode", ["mono", "split:12h"]))
 
 
+def gen_linked(ch):
+    """LinkedAsset: 'v1_t <= u1_t * v2_(t+i), i = -time_back..time_forward' between two plants of an inner portfolio that may
+    start with assets having several mapping rows per variable"""
+    gname = ch.pick("grid", ["4x6h", "12x2h", "5xh"])
+    gj = dict(S.GRIDS[gname])
+    g = Grid.from_json(gj)
+    prices = S.make_prices(g.T, S.PRICE_PAIRS[0])
+    step_h = g.dt[0] * S.MTU_H[g.mtu]
+    assets = [dict(type="SimpleContract", name="mkt", nodes=["n1"], price="p", min_cap=S.r(-9.0, g), max_cap=S.r(9.0, g))]
+    lead = ch.pick("lnk.inner_lead", ["none", "transport", "multicommodity", "coarse"])
+    inner = []
+    if lead == "transport":
+        inner += [dict(type="Transport", name="itr", nodes=["ni", "n1"], min_cap=0.0, max_cap=S.r(2.0, g)),
+                  dict(type="SimpleContract", name="icon", nodes=["ni"], price="q", min_cap=0.0, max_cap=S.r(2.0, g))]
+    elif lead == "multicommodity":
+        inner += [dict(type="MultiCommodityContract", name="imc", nodes=["n1", "ni"], price="q", min_cap=0.0, max_cap=S.r(2.0, g), factors_commodities=[1.0, -0.5]),
+                  dict(type="SimpleContract", name="icon", nodes=["ni"], price="q", min_cap=0.0, max_cap=S.r(2.0, g))]
+    elif lead == "coarse":
+        if g.T % 2:
+            return None
+        inner += [dict(type="SimpleContract", name="icon", nodes=["n1"], price="q", min_cap=0.0, max_cap=S.r(2.0, g), freq="%dh" % int(round(2 * step_h)))]
+    p1 = dict(type="Plant", name="lp1", nodes=["n1"], price="ec", min_cap=S.r(1.0, g), max_cap=S.r(4.0, g), start_costs=2.0, time_already_off=S.d_(60.0, g))
+    p2 = dict(type="Plant", name="lp2", nodes=["n1"], price="ec", min_cap=S.r(1.0, g), max_cap=S.r(3.0, g), time_already_off=S.d_(60.0, g))
+    if ch.pick("lnk.order", ["12", "21"]) == "21":
+        inner += [p2, p1]
+    else:
+        inner += [p1, p2]
+    v1 = ch.pick("lnk.v1", ["disp", "bool_on"])
+    lnk = dict(type="LinkedAsset", name="lnk", nodes=["n1"], portfolio=inner, asset1_variable=["lp2", v1, "n1" if v1 == "disp" else None],
+               asset2_variable=["lp1", "bool_on", None],
+               asset2_time_already_running=S.d_(ch.pick("lnk.already", [0, 1]) * step_h, g),
+               time_back=S.d_(ch.pick("lnk.time_back", [1, 2, 0]) * step_h, g), time_forward=S.d_(ch.pick("lnk.time_forward", [0, 1]) * step_h, g))
+    assets.insert(ch.pick("lnk.pos", [1, 0]), lnk)
+    return S.finish(gj, assets, prices, meta=dict(family="linked"))
+
+
+def check_link(scn, T, tags):
+    """the rows a LinkedAsset adds to the problem of the same portfolio wrapped as a plain StructuredAsset are exactly the documented
+    ones, on the variables its mapping names; upper bounds change only where the documentation says so"""
+    from mc import impl
+    import copy as _copy
+    V = []
+    a = [x for x in scn["assets"] if x["type"] == "LinkedAsset"][0]
+    st = {k: v for k, v in _copy.deepcopy(a).items() if k not in ("asset1_variable", "asset2_variable", "asset2_time_already_running", "time_back", "time_forward")}
+    st["type"] = "StructuredAsset"
+    pf_l, tg, prices = impl.build(dict(scn, assets=[a]))
+    pf_s, tg2, _ = impl.build(dict(scn, assets=[st]))
+    ol = pf_l.assets[0].setup_optim_problem(prices, tg)
+    os_ = pf_s.assets[0].setup_optim_problem(prices, tg2)
+    n = len(os_.c)
+    if len(ol.c) != n or ol.A.shape[0] < os_.A.shape[0]:
+        return [viol("c07.link", "linked asset has %d variables / %d rows, the same portfolio as structured asset %d / %d" % (len(ol.c), ol.A.shape[0], n, os_.A.shape[0]), tags, ["link", "shape"])]
+    m = ol.mapping
+    g = Grid.from_json(scn["grid"])
+    step = g.dt[0]
+
+    def var(asset, vname, node, t):
+        sel = m[(m["var_name"] == vname + "__" + asset) & (m["time_step"] == t)]
+        sel = sel[sel["node"].isnull()] if node is None else sel[sel["node"] == node]
+        ids = sorted(set(int(i) for i in sel.index.values))
+        return ids[0] if len(ids) == 1 else None
+    a1, v1, n1 = a["asset1_variable"]
+    a2, v2, n2 = a["asset2_variable"]
+    from ref import uc
+    tb, tf, al = uc.steps(a["time_back"], step), uc.steps(a["time_forward"], step), uc.steps(a["asset2_time_already_running"], step)
+    want_rows = collections.Counter()
+    want_u = np.array(os_.u, float).copy()
+    for t in range(T):
+        j1 = var(a1, v1, n1, t)
+        if j1 is None:
+            return [viol("c07.link", "variable %s of %s at step %d is not identified by the mapping" % (v1, a1, t), tags, ["link", "mapping"])]
+        for i in range(-tb, tf + 1):
+            if i + t < -al:
+                want_u[j1] = 0.0
+                continue
+            if i + t < 0 or i + t >= T:
+                continue
+            j2 = var(a2, v2, n2, t + i)
+            if j2 is None:
+                return [viol("c07.link", "variable %s of %s at step %d is not identified by the mapping" % (v2, a2, t + i), tags, ["link", "mapping"])]
+            row = {j1: 1.0}
+            if abs(want_u[j1]) > 1e-13:
+                row[j2] = row.get(j2, 0.0) - want_u[j1]
+            want_rows[tuple(sorted((j, fnum(x)) for j, x in row.items()))] += 1
+    got_rows = collections.Counter()
+    A = ol.A.tocsr()
+    for r in range(os_.A.shape[0], A.shape[0]):
+        row = A.getrow(r)
+        got_rows[tuple(sorted((int(j), fnum(x)) for j, x in zip(row.indices, row.data) if abs(x) > 1e-13))] += 1
+        if ol.cType[r] != "U" or abs(float(ol.b[r])) > 0:
+            V.append(viol("c07.link", "link row %d has type %s and rhs %s" % (r, ol.cType[r], ol.b[r]), tags, ["link", "rhs"]))
+            break
+    if got_rows != want_rows:
+        V.append(viol("c07.link", "link rows differ from 'v1_t <= u1_t * v2_(t+i)': only expected %s; only present %s"
+                      % (list((want_rows - got_rows).items())[:3], list((got_rows - want_rows).items())[:3]), tags, ["link", "rows"]))
+    if np.abs(np.asarray(ol.u, float) - want_u).max(initial=0) > 1e-9:
+        bad = [int(j) for j in np.nonzero(np.abs(np.asarray(ol.u, float) - want_u) > 1e-9)[0]]
+        V.append(viol("c07.link", "upper bounds of variables %s differ from the wrapped portfolio although the link does not concern them (or were not set to 0 where it does)"
+                      % bad[:6], tags, ["link", "bounds"]))
+    if (abs(A[:os_.A.shape[0], :] - os_.A.tocsr()).max() if os_.A.shape[0] else 0) > 1e-9 or np.abs(np.asarray(ol.c) - np.asarray(os_.c)).max(initial=0) > 1e-9:
+        V.append(viol("c07.link", "rows / costs of the wrapped portfolio are altered by the link", tags, ["link", "inner"]))
+    return V
+
+
 def build_cases(tier):
     K = 2 if tier == "quick" else 3
     split = dict(FEATS_ALL, grids=["8x6h", "4x6h_off", "7xh_autumn"], modes=["split:12h", "split:d", "split:5h"])
     fams = [family("main", lambda ch: S.gen_portfolio(ch, FEATS_ALL), K),
             family("split", lambda ch: S.gen_portfolio(ch, split), K),
             family("names", gen_names, K),
-            family("wrapped", gen_wrapped, K)]
+            family("wrapped", gen_wrapped, K),
+            family("linked", gen_linked, K + 1)]
     cases, stats = merge_cases(*fams)
-    stats["bound"] = dict(K=K, families=["main", "split", "names", "wrapped"])
+    stats["bound"] = dict(K=K, families=["main", "split", "names", "wrapped", "linked"])
     return cases, stats
 
 
@@ -192,6 +299,8 @@ def check_problem(op, T, label, tags):
         ts = np.asarray(m["time_step"].values)
         if ((ts < 0) | (ts >= T)).any() or not np.all(ts == ts.astype(np.int64)):
             V.append(viol("c07.step_range", "%s: time_step outside grid 0..%d: %s" % (label, T - 1, sorted(set(ts.tolist()))[:8]), tags, [label.split(":")[0]]))
+        if not bad.any() and A is not None and A.shape[1] == n:
+            V += check_coupling(op, label, tags)
         # a variable without a mapping row has zero cost and an all-zero column
         mapped = set(int(i) for i in idx[~bad])
         unm = [i for i in range(n) if i not in mapped]
@@ -206,6 +315,44 @@ def check_problem(op, T, label, tags):
             if nz_cost or nz_col:
                 V.append(viol("c07.unmapped_var", "%s: variables without mapping row have cost %s / constraint entries %s"
                               % (label, nz_cost[:5], nz_col[:5]), tags, [label.split(":")[0]]))
+    return V
+
+
+def check_coupling(op, label, tags):
+    """a row that ties exactly one boolean variable to dispatch variables of ONE step of the same (inner) asset - capacity
+    rows 'disp_t <= cap * on_t', mode rows of a storage - is a statement about that step: the boolean must be mapped to it"""
+    V = []
+    m = op.mapping
+    if "bool" not in m.columns or not m["bool"].fillna(False).astype(bool).any():
+        return V
+    info = {}
+    vn = m["var_name"].values if "var_name" in m.columns else [None] * len(m)
+    for idx, asset, typ, t, b, v in zip(m.index.values, m["asset"].values, m["type"].values, m["time_step"].values,
+                                        m["bool"].fillna(False).astype(bool).values, vn):
+        owner = (asset, str(v).split("__", 1)[1] if isinstance(v, str) and "__" in v else None)
+        d = info.setdefault(int(idx), dict(owner=owner, typ=typ, bool=bool(b), steps=set()))
+        d["steps"].add(int(t))
+    A = op.A.tocsr()
+    for r in range(A.shape[0]):
+        if op.cType[r] == "N":
+            continue
+        row = A.getrow(r)
+        cols = [int(j) for j, x in zip(row.indices, row.data) if abs(x) > 1e-13]
+        if len(cols) < 2 or any(j not in info for j in cols):
+            continue
+        bools = [j for j in cols if info[j]["bool"]]
+        disp = [j for j in cols if info[j]["typ"] == "d" and not info[j]["bool"]]
+        if len(bools) != 1 or not disp or len(bools) + len(disp) != len(cols):
+            continue
+        if any(info[j]["owner"] != info[bools[0]]["owner"] for j in disp):
+            continue
+        steps = set().union(*[info[j]["steps"] for j in disp])
+        if len(steps) != 1 or any(info[j]["steps"] != steps for j in disp) or len(info[bools[0]]["steps"]) != 1:
+            continue   # (merged periodic variables / variables of a coarser asset grid cover several steps: no claim)
+        if info[bools[0]]["steps"] != steps:
+            V.append(viol("c07.bool_step", "%s: row %d ties boolean variable %d (mapped to step %s) to dispatch variables %s of step %s"
+                          % (label, r, bools[0], sorted(info[bools[0]]["steps"]), disp, sorted(steps)), tags, [label.split(":")[0], "bool_step"]))
+            break
     return V
 
 
@@ -343,6 +490,12 @@ def run_case(case):
         res["counters"]["impl_error@" + exc_site()] = 1
         return res
     mode = scn.get("mode", "mono")
+    if (scn.get("meta") or {}).get("family") == "linked":
+        try:
+            res["violations"] += check_link(scn, T, tags)
+            res["counters"]["link_checked"] = 1
+        except Exception as e:
+            res["violations"].append(viol("c07.link", "building the linked asset / its structured twin raises %s at %s" % (short_exc(e), exc_site()), tags, ["link", "raises"]))
     if mode == "mono":
         res["violations"] += check_assembled(op, alone, scn, T, "portfolio", tags)
         n_nod = op.cType.count("N")
